@@ -42,7 +42,19 @@ pub fn script_ops(a: usize, b: usize) -> [Op; 4] {
     [Op::Add(a), Op::Add(b), Op::Bind(a, b, 0), Op::Put(b, 0)]
 }
 
+/// scripts 2 and 3: a vertex named by a variable (its id comes from next_id()), bound under `a`
+pub fn var_script_text(k: u8, a: usize) -> String {
+    let mut t = format!("ADD($ν1); BIND(ν{a}, $ν1, α0);\n# the datum\nPUT($ν1, 01-02-03-04-05-06-07-08);");
+    if k == 3 {
+        t.push_str(&format!(" BIND($ν1, {a}x, α0); ADD({a});"));
+    }
+    t
+}
+
 pub fn script_text(k: u8, a: usize, b: usize) -> String {
+    if k >= 2 {
+        return var_script_text(k, a);
+    }
     let mut t = format!("ADD({a}); ADD(ν{b});\nBIND({a}, {b}, α0); # put comes next\n PUT({b}, 01-02-03-04-05-06-07-08);");
     if k == 1 {
         t.push_str(&format!(" BIND({b}, {a}x, α0); ADD({a});"));
@@ -71,7 +83,7 @@ impl Op {
             Op::ReloadSwap => "g=load(save(g))".into(),
             Op::Merge(k, l) => format!("merge(H{k},left={l})"),
             Op::MergeFail(k, l) => format!("merge(H{k}+stray,left={l})=Err"),
-            Op::Script(k, a, b) => format!("deploy_to({:?}){}", script_text(*k, *a, *b), if *k == 1 { "=Err" } else { "" }),
+            Op::Script(k, a, b) => format!("deploy_to({:?}){}", script_text(*k, *a, *b), if *k % 2 == 1 { "=Err" } else { "" }),
         }
     }
 }
@@ -175,6 +187,17 @@ impl Model {
             Op::NextId | Op::AddNext => self.has_free_id(impl_pos),
             Op::CloneSwap | Op::CloneFromSwap | Op::ReloadSwap => true,
             Op::Merge(k, left) | Op::MergeFail(k, left) => self.merge_enabled(&fixed_tree(*k), *left, impl_pos),
+            Op::Script(k, a, _) if *k >= 2 => {
+                // needs a free id for the variable; the new vertex is bound under `a`
+                if !self.present.contains_key(a) || !self.has_free_id(impl_pos) {
+                    return false;
+                }
+                let from = self.pos.max(impl_pos);
+                let Some(id) = (from..self.cap).find(|v| !self.present.contains_key(v)) else { return false };
+                let mut sim = self.clone();
+                sim.apply(&Op::Add(id));
+                sim.bind_enabled(*a, id, 0)
+            }
             Op::Script(_, a, b) => {
                 let mut sim = self.clone();
                 for op in script_ops(*a, *b) {
@@ -402,6 +425,21 @@ impl Model {
         }
     }
 
+    /// scripts 2 and 3: the variable got `id` from next_id(); the vertex is added, bound under `a`, given a datum
+    pub fn apply_var_script(&mut self, a: usize, id: Option<usize>, errs: &mut Vec<String>) {
+        let Some(id) = id else {
+            errs.push(format!("after the script, ν{a} has no edge α0 to the vertex the script created"));
+            return;
+        };
+        let n0 = errs.len();
+        self.adopt_next(id, true, errs);
+        if errs.len() > n0 {
+            return;
+        }
+        self.apply(&Op::Bind(a, id, 0));
+        self.apply(&Op::Put(id, 0));
+    }
+
     pub fn note_returned(&mut self, id: usize) {
         if self.track_returned {
             self.returned.insert(id);
@@ -464,6 +502,7 @@ impl Model {
                 }
             }
             Op::CloneSwap | Op::CloneFromSwap => {}
+            Op::Script(k, ..) if *k >= 2 => unreachable!("handled by the caller (the id comes from the implementation)"),
             Op::Script(_, a, b) => {
                 for op in script_ops(*a, *b) {
                     self.apply(&op);
